@@ -22,7 +22,7 @@ func init() {
 	Register("C21", &Info{
 		Run:   runC21,
 		Quick: 2500, Thor: 250000,
-		Rule: "a world = one fingerprint advertising compress_certificate (parrots by stratum, generated specs with each algorithm set) against the reference server, which sends its Certificate message as CompressedCertificate with an advertised algorithm (brotli, zlib, zstd) encoded by the real encoders at a drawn level, with a drawn flush/block structure (single block, flush every n bytes, stored blocks, several concatenated zstd frames) and a drawn chain (small ECDSA leaf, RSA leaf, a 16 kB leaf with 400 SANs); fault stratum: declared uncompressed_length shorter or longer than the real one, stream truncated, byte flipped, trailing garbage appended; oracle: a valid encoding => the handshake completes, data echoes and PeerCertificates equal the chain the server compressed; an invalid one => the client aborts (never completes with any chain) and the server sees the bad_certificate alert; non-trivial = a CompressedCertificate message was processed by the client; distinct = (fingerprint, algorithm, encoder settings, chain, fault)",
+		Rule: "a world = one fingerprint advertising compress_certificate (parrots by stratum, generated specs with each algorithm set) against the reference server, which sends its Certificate message as CompressedCertificate with an advertised algorithm (brotli, zlib, zstd) encoded by the real encoders at a drawn level, with a drawn flush/block structure (single block, flush every n bytes, stored blocks, several concatenated zstd frames) and a drawn chain (small ECDSA leaf, RSA leaf, a 16 kB leaf with 400 SANs) carrying a drawn OCSP staple; narrowing stratum: the hello is built, the advertised list is narrowed, the server answers with the dropped algorithm; fault stratum: declared uncompressed_length shorter or longer than the real one, stream truncated, byte flipped (at a drawn position, or directed into the staple where the stream carries it verbatim), trailing garbage appended; oracle: a valid encoding => the handshake completes, data echoes and PeerCertificates equal the chain the server compressed; an invalid one => the client aborts (never completes with any chain) and the server sees the bad_certificate alert; non-trivial = a CompressedCertificate message was processed by the client; distinct = (fingerprint, algorithm, encoder settings, chain, fault)",
 		Assumptions: []string{"'any valid compressed encoding' is sampled through the real encoders' levels, flush points and framing; hand-crafted exotic bit streams are not generated",
 			"trailing bytes after a complete compressed stream count as a decompressed-length mismatch only when they decode to additional output (declared length shorter than the actual output)"},
 		Real: []string{"utls client decompression path from /repo", "brotli / zlib / zstd libraries on both sides"},
@@ -174,6 +174,23 @@ func runC21(c *Ctx) {
 	fpos := ch.Pick(1<<16, "fault-pos")
 	cfg := refCfg(chain)
 	cfg.CurvePreferences = []refsrv.CurveID{refsrv.CurveID(prefs)}
+	// an OCSP staple (unvalidated payload of the certificate message): a certificate message that
+	// differs only there still is "another message than the one the server compressed"
+	staple := make([]byte, ch.Range(40, 1500, "staple-len"))
+	ch.Bytes(staple, "staple")
+	hasStaple := false
+	if _, ok := dry.Ext(5); ok {
+		rc := cfg.Certificates[0]
+		rc.OCSPStaple = staple
+		cfg.Certificates[0] = rc
+		hasStaple = true
+	}
+	// narrowing stratum: the hello is built, then the advertised algorithm list is narrowed, then the
+	// handshake runs; the server answers with the algorithm that was dropped (not on the wire)
+	narrowed := false
+	if len(adv) >= 2 && fault == "none" && ch.Bool(20, "narrow") {
+		narrowed = true
+	}
 	cfg.Byz.CertCompAlg = alg
 	cfg.Byz.CertCompress = compress
 	switch fault {
@@ -191,7 +208,14 @@ func runC21(c *Ctx) {
 	case "flip":
 		cfg.Byz.CertCompCorrupt = func(s []byte) []byte {
 			s = append([]byte(nil), s...)
-			s[fpos%len(s)] ^= 0x20
+			pos := fpos % len(s)
+			if hasStaple && fpos%2 == 0 {
+				// directed: inside the staple when the stream carries it verbatim (stored / raw blocks)
+				if k := bytes.Index(s, staple[:8]); k >= 0 {
+					pos = k + (fpos/2)%min(len(staple), len(s)-k)
+				}
+			}
+			s[pos] ^= 0x20
 			return s
 		}
 	case "trailing":
@@ -202,6 +226,26 @@ func runC21(c *Ctx) {
 	c.R.Class = fmt.Sprintf("%s/%s alg=%d %s chain=%s fault=%s", kind, idi.Name, alg, cdesc, chain, fault)
 	sp := &ConnSpec{ID: idi.ID, Spec: freshSpec(newSpec), CCfg: negCfg(), Peer: PeerRef, RefCfg: cfg, Payload: [][]byte{[]byte("ping")},
 		Setup: func(l *simnet.Link) { l.Frag = ch.Bool(40, "frag") }}
+	if narrowed {
+		sp.Prep = func(u *tls.UConn) error {
+			if err := u.BuildHandshakeState(); err != nil {
+				return err
+			}
+			for _, e := range u.Extensions {
+				if cc, ok := e.(*tls.UtlsCompressCertExtension); ok {
+					var keep []tls.CertCompressionAlgo
+					for _, a := range cc.Algorithms {
+						if uint16(a) != alg {
+							keep = append(keep, a)
+						}
+					}
+					cc.Algorithms = keep
+				}
+			}
+			return nil
+		}
+		c.R.Class += " narrowed"
+	}
 	o := RunConn(c, w, sp)
 	c.Finish(w, true)
 	if c.R.Violation != nil {
@@ -209,6 +253,26 @@ func runC21(c *Ctx) {
 	}
 	c.R.NonTrivial = true
 	want := Cert(chain).DER
+	if narrowed {
+		obs := ObserveHellos(o.Link)
+		if len(obs.CH) == 0 {
+			c.R.Harness = "narrowed: no hello: " + o.Describe()
+			return
+		}
+		if has16(obs.CH[0].CertCompression, alg) {
+			c.Probe("narrowing-not-effective") // the edit did not reach the wire (C01's subject): no claim here
+			return
+		}
+		if o.CDone {
+			c.Violate(fmt.Sprintf("unadvertised-algorithm-accepted alg=%d", alg), "%s: the wire hello advertises %v, the server compressed with %d and the handshake completed", c.R.Class, obs.CH[0].CertCompression, alg)
+			return
+		}
+		if o.SErr == nil || !strings.Contains(o.SErr.Error(), "bad certificate") {
+			c.Violate(fmt.Sprintf("no-bad_certificate-alert fault=unadvertised alg=%d", alg), "%s: server saw %v, client error %v", c.R.Class, o.SErr, o.CErr)
+		}
+		c.Probe("rejected-unadvertised")
+		return
+	}
 	switch fault {
 	case "none":
 		if !o.CDone || !o.SDone {
@@ -222,12 +286,26 @@ func runC21(c *Ctx) {
 		if string(o.CRead) != "ping" {
 			c.Violate("echo-failed-after-compressed-certificate", "%s: %s", c.R.Class, o.Describe())
 		}
+		if hasStaple && !bytes.Equal(o.CState.OCSPResponse, staple) {
+			c.Violate(fmt.Sprintf("recovered-certificate-message-differs alg=%d", alg), "%s: OCSP staple differs", c.R.Class)
+		}
 		c.Probe(fmt.Sprintf("recovered-alg-%d", alg))
 	case "flip":
 		// a flipped bit may still decode to the same bytes only in pathological cases; the safety
 		// claim is: never a different certificate
 		if o.CDone && (len(o.CState.PeerCertificates) == 0 || !bytes.Equal(o.CState.PeerCertificates[0].Raw, want[0])) {
 			c.Violate(fmt.Sprintf("corrupted-stream-yields-other-certificate alg=%d", alg), "%s", c.R.Class)
+		}
+		// zlib (Adler-32) and zstd (frame checksum written by the encoder used here) streams carry an
+		// integrity check: a flipped byte makes the stream invalid. A brotli stream has none: the
+		// flipped stream is a valid encoding of another message, which the server then "compressed".
+		if o.CDone && hasStaple && alg != 2 && !bytes.Equal(o.CState.OCSPResponse, staple) {
+			c.Violate(fmt.Sprintf("corrupted-stream-yields-other-certificate-message alg=%d structure=%s", alg, structureOf(cdesc)), "%s: the handshake completed and the client holds a staple that differs from the one the server compressed", c.R.Class)
+		}
+		if o.CDone {
+			c.Probe("flip-harmless")
+		} else {
+			c.Probe("rejected-flip")
 		}
 	default:
 		if fault == "trailing" && alg != 3 {
